@@ -1,6 +1,9 @@
 /* c17_limit.c — property C17: the documented maximum number of files can be open at once; the next create/open
- * is refused with NC_ENFILE; ids are 0..NC_MAX_NFILES-1 in order, a closed id is reissued; and the resources
- * are balanced after the last close (link with c17_shim.c; heap only with a --enable-debug library).
+ * is refused with NC_ENFILE; every id handed out is >= 0, below NC_MAX_NFILES and different from every id that is
+ * currently open (NO particular allocation order is assumed); after closing a few LOW ids out of order the same
+ * number of files can be opened again; ncmpi_inq_files_opened agrees with the set of ids this program holds; and
+ * the resources are balanced after the last close (link with c17_shim.c; heap only with a --enable-debug library).
+ * Output: one line per observation  "<key> <name>=<value> ..." , judged by checks/C17.py.
  * usage: c17_limit <dir> [extra]      prints one line per observation, "key value..." ; exit 0 always unless MPI fails
  *   extra = number of refused creates/opens to attempt after the table is full (default 3)
  *        c17_limit <dir> comm         lifecycle on a communicator that is neither WORLD nor SELF (the library duplicates
@@ -58,87 +61,128 @@ static int run_comm(const char *dir)
     return 0;
 }
 
+static int n = NC_MAX_NFILES;
+static char *held;          /* held[id] = 1: this program holds id as an open file */
+static int nheld;
+
+/* is the id just returned acceptable?  0 ok, 1 out of range, 2 already open */
+static int id_bad(int ncid) { if (ncid < 0 || ncid >= n) return 1; if (held[ncid]) return 2; return 0; }
+
+/* compare ncmpi_inq_files_opened with what we hold */
+static void probe(const char *tag)
+{
+    int num = -1, num2 = -1, i, bad = 0, *ids = (int*) malloc(sizeof(int) * (size_t)(n + 8));
+    ncmpi_inq_files_opened(&num, NULL);
+    ncmpi_inq_files_opened(&num2, ids);
+    if (num2 != nheld) bad++;
+    for (i = 0; i < num2 && i < n + 8; i++) if (ids[i] < 0 || ids[i] >= n || !held[ids[i]]) bad++;
+    printf("probe tag=%s count=%d listed=%d held=%d list_bad=%d\n", tag, num, num2, nheld, bad);
+    free(ids);
+}
+
+static int open_one(const char *tag, int i, int create, const char *path, MPI_Info info)
+{
+    int ncid = -99, err, bad, use = -999;
+    if (create) err = ncmpi_create(MPI_COMM_SELF, path, NC_CLOBBER, info, &ncid);
+    else        err = ncmpi_open(MPI_COMM_SELF, path, NC_NOWRITE, info, &ncid);
+    bad = (err == NC_NOERR) ? id_bad(ncid) : 0;
+    if (err == NC_NOERR && !bad) { int nreq; held[ncid] = 1; nheld++; use = ncmpi_inq_nreqs(ncid, &nreq); }
+    printf("%s i=%d kind=%s rc=%d ncid=%d id_bad=%d use_rc=%d\n", tag, i, create ? "create" : "open", err, ncid, bad, use);
+    return (err == NC_NOERR && !bad) ? ncid : -1;
+}
+
+static void close_one(const char *tag, int ncid)
+{
+    int err = ncmpi_close(ncid), nreq, after;
+    if (err == NC_NOERR && ncid >= 0 && ncid < n && held[ncid]) { held[ncid] = 0; nheld--; }
+    after = ncmpi_inq_nreqs(ncid, &nreq);
+    printf("%s ncid=%d rc=%d after_rc=%d\n", tag, ncid, err, after);
+}
+
 int main(int argc, char **argv)
 {
-    int i, err, ncid, n = NC_MAX_NFILES, extra = 3, nbad_rc = 0, nbad_id = 0, first_bad = -1, num;
-    int *ids;
-    char path[4096];
+    int i, err, ncid, extra = 3, nbad_rc = 0, nbad_id = 0, first;
+    int *ids, low[3] = {17, 0, 5};
+    char path[4096], path17[4096];
     const char *dir;
     struct rlimit rl;
     MPI_Info info;
 
     MPI_Init(&argc, &argv);
-    if (argc < 2) { fprintf(stderr, "usage: c17_limit <dir> [extra]\n"); MPI_Finalize(); return 2; }
+    if (argc < 2) { fprintf(stderr, "usage: c17_limit <dir> [extra|comm]\n"); MPI_Finalize(); return 2; }
     dir = argv[1];
     if (argc > 2 && strcmp(argv[2], "comm") == 0) { run_comm(dir); MPI_Finalize(); return 0; }
     if (argc > 2) extra = atoi(argv[2]);
     if (getrlimit(RLIMIT_NOFILE, &rl) == 0) { rl.rlim_cur = rl.rlim_max; setrlimit(RLIMIT_NOFILE, &rl); }
     getrlimit(RLIMIT_NOFILE, &rl);
-    printf("nofile %ld\n", (long)rl.rlim_cur);
-    printf("max_nfiles %d\n", n);
+    printf("nofile value=%ld\n", (long)rl.rlim_cur);
+    printf("max_nfiles value=%d\n", n);
+    held = (char*) calloc((size_t)n + 8, 1);
+    ids = (int*) malloc(sizeof(int) * (size_t)(n + 8));
     c17_report_now("start");
 
-    ids = (int*) malloc(sizeof(int) * (size_t)(n + 8));
+    /* 1. fill the table completely */
+    first = -1;
     for (i = 0; i < n; i++) {
         snprintf(path, sizeof path, "%s/L%04d.nc", dir, i);
         ncid = -99;
         err = ncmpi_create(MPI_COMM_SELF, path, NC_CLOBBER, MPI_INFO_NULL, &ncid);
-        ids[i] = ncid;
-        if (err != NC_NOERR) { nbad_rc++; if (first_bad < 0) { first_bad = i; printf("first_bad_create %d rc %d ncid %d\n", i, err, ncid); } }
-        else if (ncid != i) nbad_id++;
+        ids[i] = -1;
+        if (err != NC_NOERR) { nbad_rc++; if (first < 0) { first = i; printf("fill_first_bad i=%d rc=%d ncid=%d\n", i, err, ncid); } }
+        else if (id_bad(ncid)) { nbad_id++; if (first < 0) { first = i; printf("fill_first_bad i=%d rc=%d ncid=%d\n", i, err, ncid); } }
+        else { held[ncid] = 1; nheld++; ids[i] = ncid; }
     }
-    printf("creates %d bad_rc %d bad_id %d\n", n, nbad_rc, nbad_id);
-    ncmpi_inq_files_opened(&num, NULL);
-    printf("files_opened %d\n", num);
+    printf("fill n=%d bad_rc=%d bad_id=%d\n", n, nbad_rc, nbad_id);
+    probe("full");
     c17_report_now("full");
 
+    /* 2. the table is full: every further create/open is refused, with and without an info object */
     MPI_Info_create(&info);
     MPI_Info_set(info, "nc_header_align_size", "1024");
     for (i = 0; i < extra; i++) {
         snprintf(path, sizeof path, "%s/X%04d.nc", dir, i);
-        ncid = -99;
-        err = ncmpi_create(MPI_COMM_SELF, path, NC_CLOBBER, (i & 1) ? info : MPI_INFO_NULL, &ncid);
-        printf("extra_create %d rc %d ncid %d\n", i, err, ncid);
-        if (err == NC_NOERR) ncmpi_close(ncid);
+        ncid = open_one("refused", i, 1, path, (i & 1) ? info : MPI_INFO_NULL);
+        if (ncid >= 0) close_one("refused_close", ncid);
     }
-    c17_report_now("after_refused_creates");
-    /* a file that exists and is valid, for the refused open: close id 3, reopen it -> id 3 again; then table is full again */
-    err = ncmpi_enddef(ids[3]); printf("enddef3 rc %d\n", err);
-    err = ncmpi_close(ids[3]); printf("close3 rc %d\n", err);
-    snprintf(path, sizeof path, "%s/L%04d.nc", dir, 3);
-    ncid = -99; err = ncmpi_open(MPI_COMM_SELF, path, NC_NOWRITE, MPI_INFO_NULL, &ncid);
-    printf("reopen3 rc %d ncid %d\n", err, ncid);
-    /* need a second valid closed file: close id 5 after enddef, reopen refused? no: the table has a free slot then.
-       Use file 3 itself: it is open read-only in slot 3; opening it again needs a slot -> refused */
+    /* make file 17 a valid closed file for the opens: leave define mode, close, reopen (must work: one slot is free) */
+    snprintf(path17, sizeof path17, "%s/L%04d.nc", dir, 17);
+    if (ids[17] >= 0) { err = ncmpi_enddef(ids[17]); printf("enddef17 rc=%d\n", err); close_one("close17", ids[17]); }
+    ids[17] = open_one("reopen17", 0, 0, path17, MPI_INFO_NULL);
     for (i = 0; i < extra; i++) {
-        ncid = -99;
-        err = ncmpi_open(MPI_COMM_SELF, path, NC_NOWRITE, (i & 1) ? info : MPI_INFO_NULL, &ncid);
-        printf("extra_open %d rc %d ncid %d\n", i, err, ncid);
-        if (err == NC_NOERR) ncmpi_close(ncid);
+        ncid = open_one("refused", 100 + i, 0, path17, (i & 1) ? info : MPI_INFO_NULL);
+        if (ncid >= 0) close_one("refused_close", ncid);
     }
+    probe("after_refused");
+    c17_report_now("after_refused");
+
+    /* 3. close a few LOW ids out of order, then open that many files again: each must succeed with an unused valid id */
+    for (i = 0; i < 3; i++) if (ids[low[i]] >= 0) { close_one("low_close", ids[low[i]]); ids[low[i]] = -1; }
+    probe("after_low_close");
+    for (i = 0; i < 3; i++) {
+        snprintf(path, sizeof path, "%s/R%d.nc", dir, i);
+        ids[low[i]] = open_one("again", i, (i != 1), (i != 1) ? path : path17, (i == 2) ? info : MPI_INFO_NULL);
+    }
+    probe("full_again");
+    /* 4. full again: refused */
+    snprintf(path, sizeof path, "%s/Y.nc", dir);
+    ncid = open_one("refused", 200, 1, path, MPI_INFO_NULL);
+    if (ncid >= 0) close_one("refused_close", ncid);
+    ncid = open_one("refused", 201, 0, path17, info);
+    if (ncid >= 0) close_one("refused_close", ncid);
     MPI_Info_free(&info);
-    c17_report_now("after_refused_opens");
-    /* reuse: close 7 and 5, the next creates get 5 then 7 */
-    err = ncmpi_close(ids[7]); printf("close7 rc %d\n", err);
-    err = ncmpi_close(ids[5]); printf("close5 rc %d\n", err);
-    snprintf(path, sizeof path, "%s/R0.nc", dir);
-    ncid = -99; err = ncmpi_create(MPI_COMM_SELF, path, NC_CLOBBER, MPI_INFO_NULL, &ncid); printf("reuse0 rc %d ncid %d\n", err, ncid); ids[5] = ncid;
-    snprintf(path, sizeof path, "%s/R1.nc", dir);
-    ncid = -99; err = ncmpi_create(MPI_COMM_SELF, path, NC_CLOBBER, MPI_INFO_NULL, &ncid); printf("reuse1 rc %d ncid %d\n", err, ncid); ids[7] = ncid;
-    ncid = -99; err = ncmpi_create(MPI_COMM_SELF, path, NC_CLOBBER, MPI_INFO_NULL, &ncid); printf("reuse2 rc %d ncid %d\n", err, ncid);
-    ncmpi_inq_files_opened(&num, NULL);
-    printf("files_opened %d\n", num);
-    /* close everything */
+    c17_report_now("full_again");
+
+    /* 5. close everything this program holds */
     nbad_rc = 0;
-    for (i = 0; i < n; i++) {
+    for (i = 0; i < n; i++) if (held[i]) {
         err = ncmpi_close(i);
-        if (err != NC_NOERR) { nbad_rc++; if (nbad_rc < 4) printf("close %d rc %d\n", i, err); }
+        if (err != NC_NOERR) { nbad_rc++; if (nbad_rc < 4) printf("close_bad ncid=%d rc=%d\n", i, err); }
+        else { held[i] = 0; nheld--; }
     }
-    printf("closes %d bad_rc %d\n", n, nbad_rc);
-    ncmpi_inq_files_opened(&num, NULL);
-    printf("files_opened %d\n", num);
-    err = ncmpi_close(0); printf("close_after_all rc %d\n", err);
-    free(ids);
+    printf("close_all bad_rc=%d still_held=%d\n", nbad_rc, nheld);
+    probe("empty");
+    err = ncmpi_close(0); printf("close_after_all rc=%d\n", err);
+    free(ids); free(held);
     fflush(stdout);
     MPI_Finalize();
     return 0;
